@@ -1,4 +1,5 @@
-CONSTANTS Grammars = {"g1", "g2"}
+CONSTANTS Grammars = {"g1", "g2", "g3"}
+Colliding = {"g3"}
 Names = {"none", "N"}
 Sems = {"s1"}
 AsIs = TRUE
